@@ -23,7 +23,10 @@ _LINE = re.compile(r'^(\d+)\s+(\w+)\((.*)$')
 
 def child_env():
     env = dict(os.environ)
-    env['PYTHONDONTWRITEBYTECODE'] = '1'
+    if env.get('VERIF_BYTECODE') == '1':      # C04: Python's bytecode cache as in normal use, kept in a scratch directory
+        env.pop('PYTHONDONTWRITEBYTECODE', None)
+    else:
+        env['PYTHONDONTWRITEBYTECODE'] = '1'
     env['PYTHONHASHSEED'] = '0'
     env.setdefault('PYTHONPATH', '/repo')
     return env
